@@ -33,6 +33,11 @@ ConfsFault == {c \in [maxSize : {0, 5}, maxElem : {0}, maxCount : {0, 1, 2},
                        lru : {TRUE}, onDelete : {"fault"}] : c.maxSize # 0 \/ c.maxCount # 0}
 ConfsFault1 == {c \in ConfsFault : c.maxCount = 1 /\ c.maxSize = 0}
 
+(* MaxElementSize at the size of the keys themselves (key lengths are 1, 1, 2): with an empty or nil value *)
+(* an entry is exactly as large as its key, so "fits" and "does not fit" meet at len(key) = MaxElementSize.  *)
+ConfsElemEdge == {c \in [maxSize : {0, 5}, maxElem : {1, 2}, maxCount : {0, 2},
+                          lru : BOOLEAN, onDelete : {"nil", "rec"}] : TRUE}
+
 MaxGets == 3
 GetBound == hit + miss <= MaxGets
 View == core
